@@ -117,5 +117,240 @@ theorem gen_match_eq_spec (env : MEnv σ ρ π) (g : Gen.Router) (m p : Bytes) (
   all_goals (try (simp_all; done))
   all_goals (try (exfalso; simp_all; omega))
 
+/-! ### part 2: the environment instantiated with the model's tables -/
+
+/-- routes of the generated code = model routes, with the cached params when the route is a cache copy -/
+abbrev MRoute := RouteM × Option Params
+
+def envMatch : MEnv RouterM MRoute Params where
+  stable s k := (alistGet s.stable k).map (·, none)
+  cacheGet s k :=
+    match s.cache.get k with
+    | (some (r, ps), c1) => ((some (r, some ps), true), { s with cache := c1 })
+    | (none, c1) => ((none, false), { s with cache := c1 })
+  paramsClone o := o.bind (·.2)
+  regular s k :=
+    match alistGet s.regular k with
+    | some l => (l.map (·, none), true)
+    | none => ([], false)
+  irregular s k :=
+    match alistGet s.irregular k with
+    | some l => (l.map (·, none), true)
+    | none => ([], false)
+  start r := r.1.info.start
+  matchRegex r p :=
+    match routeMatch r.1 p with
+    | some ps => (some ps, true)
+    | none => (none, false)
+  cacheDynamic s key ps r := if s.opts.caching then { s with cache := s.cache.set key (r.1, ps.getD []) } else s
+
+theorem slice_drop (p : Bytes) (hp : p ≠ []) : GoRt.slice p 1 p.length = .ok (p.drop 1) := by
+  cases p with
+  | nil => exact absurd rfl hp
+  | cons a t =>
+    simp only [GoRt.slice, List.length_cons]
+    have : (0 : Int) ≤ 1 ∧ (1 : Int) ≤ ((t.length + 1 : Nat) : Int) ∧ ((t.length + 1 : Nat) : Int) ≤ ((t.length + 1 : Nat) : Int) := by
+      omega
+    rw [if_pos this]
+    simp
+
+theorem indexByte_lt (s : Bytes) (c i : Nat) (h : Bytes.indexByte s c = some i) : i < s.length := by
+  induction s generalizing i with
+  | nil => simp [Bytes.indexByte] at h
+  | cons b t ih =>
+    simp only [Bytes.indexByte] at h
+    split at h
+    · simp at h; subst h; simp
+    · cases hi : Bytes.indexByte t c with
+      | none => simp [hi] at h
+      | some j =>
+        simp [hi] at h; subst h
+        have := ih j hi
+        simp; omega
+
+theorem slice_take (p : Bytes) (i : Nat) (hi : i < (p.drop 1).length) :
+    GoRt.slice p 1 ((i : Int) + 1) = .ok ((p.drop 1).take i) := by
+  simp only [GoRt.slice]
+  have hl : (p.drop 1).length = p.length - 1 := by simp
+  have : (0 : Int) ≤ 1 ∧ (1 : Int) ≤ (i : Int) + 1 ∧ (i : Int) + 1 ≤ (p.length : Int) := by omega
+  rw [if_pos this]
+  congr 2
+
+theorem indexFrom_zero (sub s : Bytes) (k : Nat) :
+    GoRt.indexFrom sub s k = some k ↔ Bytes.hasPrefix s sub = true := by
+  cases s with
+  | nil =>
+    cases sub with
+    | nil => simp [GoRt.indexFrom, Bytes.hasPrefix]
+    | cons a t => simp [GoRt.indexFrom, Bytes.hasPrefix]
+  | cons b t =>
+    simp only [GoRt.indexFrom]
+    by_cases h : Bytes.hasPrefix (b :: t) sub = true
+    · simp [h]
+    · simp only [h, Bool.false_eq_true, if_false, iff_false]
+      intro hk
+      have : ∀ (s : Bytes) (j : Nat) (r : Nat), GoRt.indexFrom sub s j = some r → j ≤ r := by
+        intro s
+        induction s with
+        | nil => intro j r; simp only [GoRt.indexFrom]; split <;> simp <;> omega
+        | cons x xs ih =>
+          intro j r
+          simp only [GoRt.indexFrom]
+          split
+          · simp; omega
+          · intro h'; have := ih (j + 1) r h'; omega
+      have := this t (k + 1) k hk
+      omega
+
+theorem index_zero_iff (s sub : Bytes) : GoRt.index s sub = 0 ↔ Bytes.hasPrefix s sub = true := by
+  unfold GoRt.index
+  have := indexFrom_zero sub s 0
+  cases h : GoRt.indexFrom sub s 0 with
+  | none => simp [h] at this ⊢; exact this
+  | some i =>
+    simp only [h] at this ⊢
+    constructor
+    · intro hi
+      have : i = 0 := by omega
+      subst this; exact this.mp rfl
+    · intro hp
+      have := this.mpr hp
+      simp at this; subst this; rfl
+
+/-- a loop of the generated `match` over model routes is the model's `firstMatch` -/
+theorem loop_first (m p : Bytes) (useStart : Bool) (l : List RouteM) (s : RouterM) :
+    loopSpec envMatch m p useStart (l.map (·, none)) s =
+      match firstMatch l p useStart with
+      | some (r, ps) =>
+        (some (envMatch.cacheDynamic s (m ++ p) (some ps) (r, none), some (r, none), some ps),
+          envMatch.cacheDynamic s (m ++ p) (some ps) (r, none))
+      | none => (none, s) := by
+  unfold loopSpec firstMatch
+  induction l with
+  | nil => rfl
+  | cons a t ih =>
+    simp only [List.map_cons, List.find?_cons, List.findSome?_cons]
+    have hstart : (GoRt.index p (envMatch.start (a, none)) == 0) = Bytes.hasPrefix p a.info.start := by
+      have := index_zero_iff p a.info.start
+      cases h : Bytes.hasPrefix p a.info.start
+      · simp only [h] at this; simp [envMatch]; intro h0; exact absurd (this.mp h0) (by simp)
+      · simp only [h] at this; simp [envMatch, this.mpr trivial]
+    cases useStart
+    · -- no pre-filter
+      simp only [Bool.not_false, Bool.true_or, Bool.true_and, Bool.false_and, Bool.false_eq_true, if_false]
+      cases hr : routeMatch a p with
+      | some ps => simp [envMatch, hr]
+      | none => simp only [envMatch, hr, Option.map_none, Bool.false_eq_true, if_false]; exact ih
+    · simp only [Bool.not_true, Bool.false_or, Bool.true_and, hstart]
+      cases hpre : Bytes.hasPrefix p a.info.start
+      · simp only [Bool.false_and, Bool.not_false, if_true, Bool.false_eq_true, if_false]; exact ih
+      · simp only [Bool.true_and, Bool.not_true, Bool.false_eq_true, if_false]
+        cases hr : routeMatch a p with
+        | some ps => simp [envMatch, hr]
+        | none => simp only [envMatch, hr, Option.map_none, Bool.false_eq_true, if_false]; exact ih
+
+theorem irr_tie (s : RouterM) (m p : Bytes) :
+    irrSpec envMatch m p s = .ok (match irrTier s m p with
+      | some (r, ps) => (envMatch.cacheDynamic s (m ++ p) (some ps) (r, none), some (r, none), some ps)
+      | none => (s, none, none)) := by
+  unfold irrSpec irrTier listAt
+  cases h : alistGet s.irregular m with
+  | none => simp [envMatch, h, firstMatch]
+  | some l =>
+    have h1 : (envMatch.irregular s m) = (l.map (·, none), true) := by simp only [envMatch, h]
+    simp only [h1, if_true, loop_first, Option.getD_some]
+    cases firstMatch l p false with
+    | none => rfl
+    | some x => rfl
+
+theorem dyn_tie (s : RouterM) (m p : Bytes) (hp : p ≠ []) :
+    dynSpec envMatch m p s = .ok (match dynMatch s m p with
+      | some (r, ps) => (envMatch.cacheDynamic s (m ++ p) (some ps) (r, none), some (r, none), some ps)
+      | none => (s, none, none)) := by
+  unfold dynSpec dynMatch regTier
+  rw [slice_drop p hp]
+  simp only
+  cases hidx : Bytes.indexByte (p.drop 1) 0x2F with
+  | none =>
+    have : GoRt.indexByte (List.drop 1 p) 47 = -1 := by unfold GoRt.indexByte; rw [hidx]
+    simp only [this]
+    have hlt : ¬ ((-1 : Int) > 0) := by omega
+    simp only [hlt, decide_false, Bool.false_eq_true, if_false]
+    rw [irr_tie]
+  | some pos =>
+    have : GoRt.indexByte (List.drop 1 p) 47 = (pos : Int) := by unfold GoRt.indexByte; rw [hidx]
+    simp only [this]
+    by_cases hpos : pos > 0
+    · have hgt : ((pos : Int) > 0) := by omega
+      simp only [hgt, decide_true, if_true, hpos]
+      rw [slice_take p pos (indexByte_lt _ _ _ hidx)]
+      simp only [listAt]
+      cases hreg : alistGet s.regular (m ++ (p.drop 1).take pos) with
+      | none =>
+        have h1 : envMatch.regular s (m ++ (p.drop 1).take pos) = ([], false) := by simp only [envMatch, hreg]
+        simp only [h1, Bool.false_eq_true, if_false, Option.getD_none, firstMatch, List.findSome?_nil]
+        rw [irr_tie]
+      | some l =>
+        have h1 : envMatch.regular s (m ++ (p.drop 1).take pos) = (l.map (·, none), true) := by simp only [envMatch, hreg]
+        simp only [h1, if_true, loop_first, Option.getD_some]
+        cases firstMatch l p true with
+        | none => simp only []; rw [irr_tie]
+        | some x => rfl
+    · have hgt : ¬ ((pos : Int) > 0) := by omega
+      simp only [hgt, decide_false, Bool.false_eq_true, if_false, hpos]
+      rw [irr_tie]
+
+/-- the dynamic tiers only read the tables -/
+theorem dynMatch_cache (rt : RouterM) (c : Cache Bytes (RouteM × Params)) (m p : Bytes) :
+    dynMatch { rt with cache := c } m p = dynMatch rt m p := rfl
+
+/-- what the model's result looks like in Go's `(route, ps)`: the route (a cache copy carries its params),
+    the params (`nil` for a static route), and whether it came from the cache -/
+def ofGo (ro : Option MRoute) (po : Option Params) : Option (RouteM × Params × Bool) :=
+  ro.map fun x => (x.1, po.getD [], x.2.isSome)
+
+/-- `Router.match` as generated = the model's `matchM` (new router state and result), for every non-empty path -/
+theorem tie_match (g : Gen.Router) (rt : RouterM) (hc : g.enableCaching = rt.opts.caching)
+    (m p : Bytes) (hp : p ≠ []) :
+    ∃ ro po, Gen.Router.match_ g m p envMatch rt = .ok ((matchM rt m p).2, ro, po) ∧
+      (matchM rt m p).1 = ofGo ro po := by
+  rw [gen_match_eq_spec]
+  unfold matchSpec matchM
+  cases hst : alistGet rt.stable (m ++ p) with
+  | some r =>
+    refine ⟨some (r, none), none, ?_, ?_⟩
+    · simp [envMatch, hst]
+    · simp [ofGo]
+  | none =>
+    have hst' : (envMatch.stable rt (m ++ p)).isSome = false := by simp [envMatch, hst]
+    simp only [hst', Bool.false_eq_true, if_false, hc]
+    cases hcach : rt.opts.caching with
+    | false =>
+      simp only [Bool.false_eq_true, if_false]
+      rw [dyn_tie rt m p hp]
+      cases hd : dynMatch rt m p with
+      | none => exact ⟨none, none, by simp, by simp [ofGo]⟩
+      | some x =>
+        obtain ⟨r, ps⟩ := x
+        refine ⟨some (r, none), some ps, ?_, by simp [ofGo]⟩
+        simp [envMatch, hcach]
+    | true =>
+      simp only [if_true]
+      rcases hget : rt.cache.get (m ++ p) with ⟨_ | ⟨r, ps⟩, c1⟩
+      · have hg : envMatch.cacheGet rt (m ++ p) = ((none, false), { rt with cache := c1 }) := by
+          simp only [envMatch, hget]
+        simp only [hg, Bool.false_eq_true, if_false]
+        rw [dyn_tie _ m p hp, dynMatch_cache]
+        cases hd : dynMatch rt m p with
+        | none => exact ⟨none, none, by simp, by simp [ofGo]⟩
+        | some x =>
+          obtain ⟨r, ps⟩ := x
+          refine ⟨some (r, none), some ps, ?_, by simp [ofGo]⟩
+          simp [envMatch, hcach]
+      · have hg : envMatch.cacheGet rt (m ++ p) = ((some (r, some ps), true), { rt with cache := c1 }) := by
+          simp only [envMatch, hget]
+        simp only [hg, if_true]
+        exact ⟨some (r, some ps), some ps, by simp [envMatch], by simp [ofGo]⟩
+
 end Tie
 end Rux
